@@ -10,6 +10,7 @@
 //   auth_revoke <uid> <evt>                AuthManager::revoke_permission (drops)  -> OK | E nf
 //   auth_revkey <uid>                      AuthManager::revoke_key                 -> OK | E nf
 //   auth_can <uid> <evt>                   can_read / can_write / is_admin         -> r=_ w=_ a=_
+//   auth_perms <uid>                       AuthManager::get_permissions            -> PT <type:rw,..> | E nf
 //   auth_parse <line>                      AuthManager::parse_auth                 -> P <u> <s> <c> | N
 //   auth_verify <msg> <uid> <sig>          AuthManager::verify_signature           -> OK | N
 //   auth_tok_new <slot> <uid>              generate_session_token, remembered as @{slot} -> T
@@ -113,6 +114,7 @@ fn classify_json(out: &[u8]) -> String {
     let mut rows = 0usize;
     let mut types: BTreeSet<String> = BTreeSet::new();
     let mut cols: Vec<String> = vec![];
+    let mut perms: Vec<String> = vec![];
     // the response is either one JSON object {"count","status","message","results"} or a
     // stream of frames, one JSON value per line (schema / row / batch / end)
     let mut any = false;
@@ -131,6 +133,14 @@ fn classify_json(out: &[u8]) -> String {
             if let Some(r) = v.get("results").and_then(|x| x.as_array()) {
                 for item in r {
                     collect_types(item, &mut types, &mut rows);
+                    // SHOW PERMISSIONS: "  <event_type>: read, write" | "  <event_type>: none"
+                    if let Some(l) = item.as_str() {
+                        if let Some(rest) = l.strip_prefix("  ") {
+                            if let Some((t, ps)) = rest.rsplit_once(": ") {
+                                perms.push(perm_entry(t, ps.contains("read"), ps.contains("write")));
+                            }
+                        }
+                    }
                 }
             }
             continue;
@@ -186,12 +196,19 @@ fn classify_json(out: &[u8]) -> String {
         return format!("RAW {}", hexs(&out[..out.len().min(40)]));
     }
     let ts: Vec<String> = types.iter().map(|t| hexs(t.as_bytes())).collect();
+    perms.sort();
     format!(
-        "{} rows={} types={}",
+        "{} rows={} types={}{}",
         status.map(|s| s.to_string()).unwrap_or("?".into()),
         rows,
-        if ts.is_empty() { "-".to_string() } else { ts.join(",") }
+        if ts.is_empty() { "-".to_string() } else { ts.join(",") },
+        if perms.is_empty() { String::new() } else { format!(" perms={}", perms.join(",")) }
     )
+}
+
+/// one entry of a canonical permission table: <hex type>:<r|-><w|->
+fn perm_entry(t: &str, r: bool, w: bool) -> String {
+    format!("{}:{}{}", hexs(t.as_bytes()), if r { "r" } else { "-" }, if w { "w" } else { "-" })
 }
 
 fn collect_types(item: &serde_json::Value, types: &mut BTreeSet<String>, rows: &mut usize) {
@@ -421,6 +438,14 @@ pub fn run(t: &[String]) -> String {
             let (r, w, ad) = gl.rt.block_on(async { (a.can_read(&u, &e).await, a.can_write(&u, &e).await, a.is_admin(&u).await) });
             format!("r={} w={} a={}", r as u8, w as u8, ad as u8)
         }
+        "auth_perms" => match gl.rt.block_on(am().get_permissions(&text(&t[1]))) {
+            Ok(m) => {
+                let mut v: Vec<String> = m.iter().map(|(t, p)| perm_entry(t, p.read, p.write)).collect();
+                v.sort();
+                format!("PT {}", if v.is_empty() { "-".to_string() } else { v.join(",") })
+            }
+            Err(e) => format!("E {}", err_kind(&e)),
+        },
         "auth_parse" => {
             let line = text(&t[1]);
             match am().parse_auth(&line) {
